@@ -113,6 +113,7 @@ class SwitchWriteHandler(AbstractWriteHandler):
                                 self.start_vertex,
                                 check_end_block=self.check_end_block,
                             )
+                            output_length_before = len(self.decompiler._output)
                             handler.write_content()
                             if (
                                 not isinstance(handler.last_handler_in_block, LabelWriteHandler)
@@ -120,9 +121,16 @@ class SwitchWriteHandler(AbstractWriteHandler):
                             ):
                                 root_op_before = self._get_root_op(handler.last_vertex)
                                 assert handler.last_handler_in_block is not None
-                                if not handler.last_handler_in_block.ended_on_jump and (
-                                    root_op_before is None
-                                    or root_op_before.op_code.name not in OPS_THAT_END_CONTROL_FLOW
+                                # A block for which nothing was written (it consists of the jump to the end of the
+                                # switch only) still leaves the switch; without a statement the case would be empty,
+                                # which is not valid ExplorerScript when it is the last one.
+                                block_is_empty = len(self.decompiler._output) == output_length_before
+                                if block_is_empty or (
+                                    not handler.last_handler_in_block.ended_on_jump
+                                    and (
+                                        root_op_before is None
+                                        or root_op_before.op_code.name not in OPS_THAT_END_CONTROL_FLOW
+                                    )
                                 ):
                                     self.decompiler.write_stmnt("break;")
 
